@@ -4,7 +4,7 @@
    hooks.  [reachable step init s] quantifies over ALL schedules (sequences of
    thread choices) of any length; page size, item list and number of Consume
    calls are arbitrary. *)
-From PP Require Import Gen.Src_queues Queues.UsqDefs Queues.UsqProofs.
+From PP Require Import Gen.Src_queues Queues.UsqDefs Queues.UsqProofs Queues.RingDefs Queues.RingProofs.
 
 (* ---------- UnboundedSingleQueue (util/pcqueue.hh:238-300) ---------- *)
 
@@ -80,3 +80,50 @@ Example C16_nonvacuous_usq_run :
             rev (u_got s) = [7; 8; 9]%Z /\ u_rd s = 1 /\ u_err s = None /\
             match u_heap s 0 with UFreed => True | _ => False end.
 Proof. eexists. vm_compute. repeat split. Qed.
+
+(* ---------- BlockQueue / Lease / ThreadedBufferedStream (util/threaded_buffered_stream.hh) ---------- *)
+
+(* never hand out a block that is still in use by the other side: for every number of blocks K >= 2,
+   block size B >= 1, every list of write() calls and every schedule, (1) while the owner holds a block
+   for filling and the writer thread holds one for writing they are different blocks, (2) when the owner
+   is about to acquire its next block (trash_ available) it is not the one the writer holds, (3) when the
+   writer is about to acquire (output_ available) it is not the one the owner is filling *)
+Theorem C16_ring_blocks_exclusive :
+  forall K B prog s, 2 <= K -> 1 <= B ->
+  reachable (ring_step K B) (ring_init (ring_output_init K) (ring_trash_init K) B prog) s ->
+  (owner_holds s = true -> writer_holds s = true -> r_pi s <> r_ci s) /\
+  (writer_holds s = true -> 1 <= r_trash s ->
+     (match r_ppc s with RPSpillWait _ | RPPoisonWait => True | _ => False end) -> r_pi s <> r_ci s) /\
+  (owner_holds s = true -> 1 <= r_out s -> r_cpc s = RCWait -> r_ci s <> r_pi s).
+Proof. intros K B prog s HK HB. exact (ring_exclusive_proof K B HK HB prog s). Qed.
+Print Assumptions C16_ring_blocks_exclusive.
+
+(* no deadlock, and the destructor always gets through: whenever neither the owner (constructor, writes,
+   destructor incl. join) nor the writer thread can take a step, both have finished *)
+Theorem C16_ring_no_deadlock :
+  forall K B prog s, 2 <= K -> 1 <= B ->
+  reachable (ring_step K B) (ring_init (ring_output_init K) (ring_trash_init K) B prog) s ->
+  ring_step K B s 0 = None -> ring_step K B s 1 = None ->
+  r_ppc s = RPDone /\ r_cpc s = RCDone.
+Proof. intros K B prog s HK HB. exact (ring_no_stuck_proof K B HK HB prog s). Qed.
+Print Assumptions C16_ring_no_deadlock.
+
+(* with a single block the protocol of the source WOULD deadlock in the destructor (why K >= 2 is needed):
+   the owner waits for a free block after posting the poison, the writer exits without freeing one *)
+Theorem C16_ring_one_block_deadlocks :
+  exists s, run (ring_step 1 4) (ring_init (ring_output_init 1) (ring_trash_init 1) 4 []) [0; 0; 0; 1; 1; 1; 1; 1] = Some s /\
+            ring_step 1 4 s 0 = None /\ ring_step 1 4 s 1 = None /\ r_ppc s = RPPoisonWait.
+Proof. eexists. vm_compute. repeat split. Qed.
+
+Example C16_nonvacuous_ring_constants : 2 <= ring_blocks /\ 1 <= ring_block_size.
+Proof. split; vm_compute; repeat constructor. Qed.
+
+(* a run with two writes crossing a block boundary (K = 3, B = 4) that ends with both threads finished and
+   the bytes in the file in order *)
+Example C16_nonvacuous_ring_run :
+  match run (ring_step 3 4) (ring_init (ring_output_init 3) (ring_trash_init 3) 4 [[1; 2; 3]; [4; 5; 6]]%Z)
+            [0; 0; 0; 0; 0; 0; 0; 0; 0; 0; 1; 1; 1; 1; 0; 1; 1; 1; 1; 1; 1; 1; 0; 0] with
+  | Some s => r_ppc s = RPDone /\ r_cpc s = RCDone /\ r_file s = [1; 2; 3; 4; 5; 6]%Z /\ r_flushes s = 1
+  | None => False
+  end.
+Proof. vm_compute. repeat split. Qed.
